@@ -327,19 +327,8 @@ func corsAndContextEffects(c *core.Ctx, R string) {
 	if u := c.Fn(R, "types.(*HttpContext).GetMethod"); u != nil {
 		g := u.Graph()
 		info := u.Info()
-		empty := func(x *core.Unit, br core.Branch) int {
-			cmp, ok := x.BranchCmp(br)
-			if !ok || cmp.Val == nil || trimQuotes(cmp.Val.ExactString()) != "" || fieldOf(x.Info(), cmp.X) != "HttpContext.method" {
-				return 0
-			}
-			switch cmp.Op {
-			case token.EQL:
-				return 1
-			case token.NEQ:
-				return -1
-			}
-			return 0
-		}
+		// "the cached method is empty", in any spelling (== "", len(…) == 0, < 1 …)
+		empty := gNot(gStrExprNonEmpty(func(x *core.Unit, e ast.Expr) bool { return fieldOf(x.Info(), e) == "HttpContext.method" }))
 		ok := false
 		for _, a := range fieldAssigns(u, "HttpContext.method") {
 			if ce, key := u.AsCall(a.Rhs); ce != nil && key == "strings.ToUpper" && g.GuardedBy(a.Loc, empty) {
